@@ -241,6 +241,8 @@ pub enum Stmt {
     HwQubitDecl(String),
     OldDecl { qreg: bool, name: String, size: Expr },
     IoDecl { input: bool, ty: Ty, name: String },
+    /// `input array[int[8], 4] a;`
+    IoArrayDecl { input: bool, base: Ty, dims: Vec<Expr>, name: String },
     Alias { name: String, value: Expr },
     Gate { name: String, params: Option<Vec<String>>, qubits: Vec<String>, body: Vec<Stmt> },
     Def { name: String, params: Vec<(ParamTy, String)>, ret: Option<Ty>, body: Vec<Stmt> },
@@ -284,6 +286,7 @@ impl Stmt {
             HwQubitDecl(_) => "hw-qubit-decl",
             OldDecl { .. } => "old-decl",
             IoDecl { .. } => "io-decl",
+            IoArrayDecl { .. } => "io-array-decl",
             Alias { .. } => "alias",
             Gate { .. } => "gate",
             Def { .. } => "def",
@@ -653,6 +656,17 @@ impl Printer {
             Stmt::IoDecl { input, ty, name } => {
                 self.w(if *input { "input" } else { "output" });
                 self.ty(ty);
+                self.w(name);
+                self.w(";");
+            }
+            Stmt::IoArrayDecl { input, base, dims, name } => {
+                self.w(if *input { "input" } else { "output" });
+                self.w("array");
+                self.w("[");
+                self.ty(base);
+                self.w(",");
+                self.comma_list(dims);
+                self.w("]");
                 self.w(name);
                 self.w(";");
             }
@@ -1044,6 +1058,7 @@ pub fn r_stmt(s: &Stmt) -> String {
         Stmt::HwQubitDecl(n) => format!("(qubit-decl-hw {n})"),
         Stmt::OldDecl { qreg, .. } => format!("(old-decl {})", if *qreg { "qreg" } else { "creg" }),
         Stmt::IoDecl { input, ty, name } => format!("(io-decl {} {} {name})", if *input { "input" } else { "output" }, r_ty(ty)),
+        Stmt::IoArrayDecl { input, base, name, .. } => format!("(io-array-decl {} {} {name})", if *input { "input" } else { "output" }, r_ty(base)),
         Stmt::Alias { name, value } => format!("(alias {name} {})", r_expr(value)),
         Stmt::Gate { name, params, qubits, body } => format!(
             "(gate {name} (params{}) (qubits {}) {})",
